@@ -35,6 +35,8 @@ type Program struct {
 	byName  map[string]*ssa.Function
 	cg      *callgraph.Graph
 	Overlay map[string][]byte
+
+	rehomedDecl map[string]bool // declared keys of functions that stand for a reference function of another receiver form
 }
 
 // Options for Load.
@@ -164,9 +166,79 @@ func (p *Program) collectFuncs() {
 			}
 		}
 	}
+	p.rehome()
 	sort.Slice(p.Funcs, func(i, j int) bool { return FuncKey(p.Funcs[i]) < FuncKey(p.Funcs[j]) })
 	for _, f := range p.Funcs {
 		p.byName[FuncKey(f)] = f
+	}
+}
+
+// ReferenceKeys is the set of function keys of the reference tree (set once by the command from package norm; nil disables
+// re-homing).
+var ReferenceKeys map[string]bool
+
+var (
+	rehomedKey = map[*ssa.Function]string{} // function -> the key it had on the reference tree
+	rehomedRef = map[*types.Func]string{}   // function object -> "<pkg>.<Recv>.<Name>" it had there
+)
+
+// RehomedRef returns the reference form "<pkg>.<Recv>.<Name>" of a function that was a method on the reference tree and is a
+// plain function now (or the reverse), "" otherwise.
+func RehomedRef(f *types.Func) string { return rehomedRef[f] }
+
+// IsRehomed reports whether a declared function stands for a reference function under another receiver form.
+func (p *Program) IsRehomed(declKey string) bool { return p.rehomedDecl[declKey] }
+
+// rehome recognises a method that became a plain function (or a function that became a method, or changed between value
+// and pointer receiver): a function whose own key is not on the reference tree, in a package where exactly one reference
+// function of the same name is missing, stands for that function. It keeps the reference key, so anchors resolve and
+// reports name it as before.
+func (p *Program) rehome() {
+	p.rehomedDecl = map[string]bool{}
+	if ReferenceKeys == nil {
+		return
+	}
+	declared := map[string]bool{}
+	for _, f := range p.Funcs {
+		if f.Parent() == nil {
+			declared[rawFuncKey(f)] = true
+		}
+	}
+	base := func(key string) (pkg, name string) {
+		i := strings.LastIndex(key, ".")
+		name = key[i+1:]
+		rest := key[:i]
+		if j := strings.Index(rest, ".("); j >= 0 {
+			rest = rest[:j]
+		}
+		return rest, name
+	}
+	missing := map[string][]string{} // pkg\x00name -> reference keys not declared now
+	for k := range ReferenceKeys {
+		if !declared[k] {
+			pk, n := base(k)
+			missing[pk+"\x00"+n] = append(missing[pk+"\x00"+n], k)
+		}
+	}
+	for _, f := range p.Funcs {
+		if f.Parent() != nil {
+			continue
+		}
+		k := rawFuncKey(f)
+		if ReferenceKeys[k] {
+			continue
+		}
+		pk, n := base(k)
+		cands := missing[pk+"\x00"+n]
+		if len(cands) != 1 {
+			continue
+		}
+		rehomedKey[f] = cands[0]
+		p.rehomedDecl[k] = true
+		if obj, ok := f.Object().(*types.Func); ok {
+			ref := strings.NewReplacer("(*", "", "(", "", ")", "").Replace(cands[0])
+			rehomedRef[obj] = ref
+		}
 	}
 }
 
@@ -176,6 +248,14 @@ func FuncKey(f *ssa.Function) string {
 	if f.Parent() != nil {
 		return FuncKey(f.Parent()) + strings.TrimPrefix(f.Name(), f.Parent().Name())
 	}
+	if k, ok := rehomedKey[f]; ok {
+		return k
+	}
+	return rawFuncKey(f)
+}
+
+// rawFuncKey is FuncKey without re-homing.
+func rawFuncKey(f *ssa.Function) string {
 	pkg := ""
 	if f.Pkg != nil {
 		pkg = Short(f.Pkg.Pkg.Path())
